@@ -544,7 +544,7 @@ def two_senders(res, rng, tier, schedule=None):
     written twice, and a command is written whole."""
     from mysensors.transport import BaseMySensorsProtocol, SyncTransport
     fails = []
-    msgs = ["1;1;1;0;2;1\n", "2;1;1;0;2;0\n"]
+    msgs = ["1;1;1;0;47;21.5 °C ünï\n", "2;1;1;0;2;0\n"]       # (commands carry whatever text the controller set)
     for trial in range(1 if schedule is not None else 80 if tier == "quick" else 2000):
         ctx = Ctx(timeout=2.0)
         writes = []
@@ -603,6 +603,121 @@ def two_senders(res, rng, tier, schedule=None):
                           "what": f"two threads in SyncTransport.send on a slow connection: {bad} (schedule {sched}, "
                                   f"a timed acquire gives up after {(trial % 3) + 1} turns)"})
             if len(fails) > 3:
+                break
+    return fails
+
+
+class PointDeque(collections.deque):
+    """a deque of plain values whose every access is a scheduling point; iteration behaves as the real one
+    does (it raises when the deque changes size between two steps)"""
+    ctx = None
+
+    def append(self, item):
+        self.ctx.point("q.append")
+        super().append(item)
+
+    def appendleft(self, item):
+        self.ctx.point("q.appendleft")
+        super().appendleft(item)
+
+    def popleft(self):
+        self.ctx.point("q.popleft")
+        return super().popleft()
+
+    def pop(self):
+        self.ctx.point("q.pop")
+        return super().pop()
+
+    def clear(self):
+        self.ctx.point("q.clear")
+        super().clear()
+
+    def __bool__(self):
+        self.ctx.point("q.bool")
+        return len(self) > 0
+
+    def __len__(self):
+        return collections.deque.__len__(self)
+
+    def __iter__(self):
+        size = collections.deque.__len__(self)
+        i = 0
+        while i < size:
+            self.ctx.point("q.next")
+            if collections.deque.__len__(self) != size:
+                raise RuntimeError("deque mutated during iteration")
+            yield collections.deque.__getitem__(self, i)
+            i += 1
+        self.ctx.point("q.next")
+        if collections.deque.__len__(self) != size:
+            raise RuntimeError("deque mutated during iteration")
+
+    def copy(self):
+        self.ctx.point("q.copy")
+        return collections.deque(collections.deque.__iter__(self))
+
+
+def sleeper_queue(schedule):
+    """The queue of commands withheld for one sleeping node is filled from the controller's thread
+    (`set_child_value` -> `is_sensor` -> `_route_message`) and emptied by the pump's thread when the node wakes up.
+    One wake-up against one controller call under the given schedule.  Returns (statuses, commands released to
+    the pump, commands still withheld, what was withheld before)."""
+    from mysensors.gateway_serial import SerialGateway
+    ctx = Ctx(timeout=3.0)
+    gw = SerialGateway("/dev/verif-none", protocol_version="2.2")
+    gw.tasks.transport.protocol.transport = PlainConn()
+    for line in ("1;255;0;0;17;2.2\n", "1;0;0;0;3;\n", "1;0;1;0;2;1\n", "1;255;3;0;32;500\n",
+                 "1;0;2;0;2;\n", "1;255;3;0;6;\n"):
+        gw.logic(line)
+    node = gw.sensors[1]
+    before = list(node.queue)
+    pq = PointDeque(before)
+    pq.ctx = ctx
+    node.queue = pq
+    released = []
+    gw.tasks.add_job = lambda func, *args: released.append(func(*args))
+    try:
+        threads = [ctx.coop.spawn(lambda: gw.logic("1;255;3;0;32;501\n"), "pump"),
+                   ctx.coop.spawn(lambda: gw.set_child_value(1, 9, 2, "1"), "controller")]
+        for th in threads:
+            ctx.coop.prime(th)
+        for step in range(80):
+            live = [i for i, th in enumerate(threads) if not th.done]
+            if not live:
+                break
+            i = schedule[step] if step < len(schedule) else live[0]
+            ctx.coop.resume(threads[i if i in live else live[0]])
+        statuses = [th.status for th in threads]
+    finally:
+        ctx.coop.shutdown()
+    return statuses, [str(x) for x in released], list(collections.deque.__iter__(pq)), before
+
+
+def sleeper_queue_part(res, tier):
+    fails = []
+    for sched in itertools.product((0, 1), repeat=9 if tier == "quick" else 12):
+        try:
+            statuses, released, held, before = sleeper_queue(list(sched))
+        except HarnessHang:
+            res.count("sleeper-queue:infeasible")
+            continue
+        res.evaluations += 1
+        res.count("sleeper-queue")
+        want = before + ["1;255;3;0;19;\n"]
+        got = released + held
+        bad = None
+        raised = [(n, st) for n, st in zip(("pump", "controller"), statuses) if st not in ("ret", "done")]
+        if raised and raised[0][1] != "ValueError":      # (the controller call for an unknown child may be refused)
+            bad = f"the {raised[0][0]} thread ended with {raised[0][1]}"
+        elif sorted(got) != sorted(want):
+            bad = f"withheld {before}, one more queued by the controller: released {released}, still withheld {held}"
+        elif [c for c in got if c in before] != before:
+            bad = f"order changed: released {released}, still withheld {held}, withheld before {before}"
+        if bad:
+            fails.append({"key": {"kind": "sleeper-queue"}, "replay": {"op": "sleeper-queue", "schedule": list(sched)},
+                          "what": f"a sleeping node wakes up while the controller queues a command for it "
+                                  f"(schedule {list(sched)}): {bad}"})
+            if len(fails) >= 3:
                 break
     return fails
 
@@ -1220,6 +1335,8 @@ def run(tier, seed, driver):
         res.oracle_failures.append(bad)
     for bad in mqtt_pump(res):
         res.oracle_failures.append(bad)
+    for bad in sleeper_queue_part(res, tier):
+        res.oracle_failures.append(bad)
 
     # (c'') the real connection objects honour the contract the fakes stand for: write() on a usable
     # connection hands over the whole command, on a dead one it raises an OSError (which send() absorbs)
@@ -1386,6 +1503,12 @@ def replay(payload):
         print(res.histogram)
         print("oracle:", bad[:1])
         return 1 if bad else 0
+    if r.get("op") == "sleeper-queue":
+        statuses, released, held, before = sleeper_queue(r["schedule"])
+        print("threads:", statuses, " withheld before:", before, " released:", released, " still withheld:", held)
+        ok = all(st in ("ret", "done", "ValueError") for st in statuses) and \
+            sorted(released + held) == sorted(before + ["1;255;3;0;19;\n"])
+        return 0 if ok else 1
     if r.get("op") == "mqtt-pump":
         bad = mqtt_pump(Result())
         print("oracle:", bad[:1])
